@@ -583,7 +583,9 @@ class C11(Property):
         'constants given as Python int / float / sympy.Integer: the model is exact; Python int ** negative int and float arithmetic give doubles, '
         'compared to the exact value with 1e-9 relative tolerance (small magnitudes only)',
         'sympy.primefactors returns the primes dividing |n|: correspondence on 0..210 and on the generated coefficients only',
-        'eliminate for more than two equilibria and cancel: correspondence only (the property text asks for two)',
+        'a negative coefficient accepted and stored because all_positive is not among the checks: outside the model (containers hold naturals, outcome `!negative-unchecked`); '
+        'correspondence demands that the real constructor then returns exactly the given coefficients, oracle checks the stored containers',
+        'operands that are not equilibria (a + 0, 0 + a, sum(list) without start): model addPy/subPy/sumPy refuse by definition; which Python objects are such operands is tied by correspondence/oracle only',
         'independence of the Python TYPE of collection arguments (rxns of eliminate as list / tuple / generator / iter / filter / map / dict view / '
         'numpy object array / deque / reversed; substance keys of net_stoich; reac/prod given as sets) and of the integer TYPE of multipliers '
         '(int, sympy.Integer, numpy int8/32/64, integral Fraction): the Lean model has one list type and Int; decided by correspondence and the '
@@ -697,7 +699,17 @@ class C11(Property):
                     b = dict(a, reac=a['prod'], prod=a['reac']) if rng.random() < 0.5 else a
                 else:
                     b = gen_eq(rng, pool, kmode if rng.random() < 0.95 else 'none', inact=rng.random() < 0.3)
-                cases.append({'op': rng.choice(['add', 'sub']), 'kmode': kmode, 'a': a, 'b': b})
+                opn = rng.choice(['add', 'sub'])
+                v = rng.random()
+                if v < 0.06:
+                    cases.append({'op': opn, 'kmode': kmode, 'a': a, 'b': None})
+                elif v < 0.12:
+                    cases.append({'op': opn, 'kmode': kmode, 'a': None, 'b': b})
+                elif v < 0.3:     # the way a user adds up a list
+                    more = [gen_eq(rng, pool, kmode) for _ in range(rng.randint(0, 3))]
+                    cases.append({'op': 'sum', 'kmode': kmode, 'start': a if rng.random() < 0.7 else None, 'eqs': [b] + more if rng.random() < 0.9 else []})
+                else:
+                    cases.append({'op': opn, 'kmode': kmode, 'a': a, 'b': b})
             elif r < 0.70:
                 e = gen_eq(rng, pool, 'none', inact=rng.random() < 0.4, plain=False, p_zero=0.15)
                 v = rng.random()
@@ -774,6 +786,15 @@ class C11(Property):
                     e['checks'] = ['any_effect', 'no_such_check']
                 else:
                     e['dont_check'] = ['spelling']
+            elif v < 0.45:       # all_positive not checked: a negative coefficient is accepted and STORED (outside the model's naturals)
+                if e['reac']:
+                    e['reac'][0][1] = -rng.randint(1, 3)
+                if rng.random() < 0.5:
+                    e['checks'] = rng.choice([[], ['all_integral'], ['consistent_units', 'all_integral']])
+                else:
+                    e['dont_check'] = rng.choice([['all_positive'], ['all_positive', 'any_effect']])
+                    if e['dont_check'] == ['all_positive'] and not _has_effect(e):
+                        e['dont_check'] = ['all_positive', 'any_effect']
             elif v < 0.7:        # explicit checks (order as given), negative coefficients only when all_positive is checked
                 names = rng.sample(['any_effect', 'all_positive', 'all_integral', 'consistent_units'], rng.randint(0, 4))
                 if 'all_positive' in names and e['reac'] and rng.random() < 0.4:
@@ -823,10 +844,14 @@ class C11(Property):
                 return 'any_effect=%s;all_positive=%s' % (str(bool(o.check_any_effect())).lower(), str(bool(o.check_all_positive())).lower())
             if op == 'neg':
                 return show_equil(-build_eq(c['eq'], km))
-            if op == 'add':
-                return show_equil(build_eq(c['a'], km) + build_eq(c['b'], km))
-            if op == 'sub':
-                return show_equil(build_eq(c['a'], km) - build_eq(c['b'], km))
+            if op in ('add', 'sub'):
+                a = 0 if c['a'] is None else build_eq(c['a'], km)        # null: a number instead of an equilibrium
+                b = 0 if c['b'] is None else build_eq(c['b'], km)
+                return show_equil(a + b if op == 'add' else a - b)
+            if op == 'sum':
+                objs = [build_eq(e, km) for e in c['eqs']]
+                r = sum(objs) if c['start'] is None else sum(objs, build_eq(c['start'], km))
+                return '0' if (isinstance(r, int) and r == 0) else show_equil(r)
             if op == 'expr':
                 return show_equil(eval_tree(c['tree'], km))
             if op == 'history':
@@ -864,7 +889,14 @@ class C11(Property):
     def same(self, c, io, mo):
         if io == mo:
             return True
-        if c['op'] in ('expr', 'rmul', 'neg', 'add', 'sub', 'mk'):
+        if c['op'] == 'mk' and mo == '!negative-unchecked':
+            # region outside the model (its containers hold naturals): all_positive is not among the checks and a coefficient is
+            # negative; Python accepts and stores it -- the real outcome must be exactly the object with the given coefficients
+            e = c['eq']
+            cont = (lambda l: sorted(l)) if e['dict'] else (lambda l: l)
+            want = '|'.join(','.join('%s:%d' % (k, v) for k, v in cont([tuple(kv) for kv in e[side]])) for side in ('reac', 'prod', 'ireac', 'iprod'))
+            return io.rsplit('|', 1)[0] == want
+        if c['op'] in ('expr', 'rmul', 'neg', 'add', 'sub', 'mk', 'sum'):
             return same_equil(io, mo, 1e-9)
         if c['op'] == 'history':
             a, b = io.split(';;'), mo.split(';;')
@@ -938,6 +970,41 @@ class C11(Property):
                     if dict(getattr(o, nm)) != {k: v for k, v in e[side]}:
                         return 'constructor stored %s = %r for %r' % (nm, dict(getattr(o, nm)), e[side])
             return None
+        if op in ('add', 'sub') and (c['a'] is None or c['b'] is None):
+            # a number where an equilibrium is due (e.g. the 0 of sum()): must be refused, never answered with an equilibrium
+            try:
+                a = 0 if c['a'] is None else build_eq(c['a'], km)
+                b = 0 if c['b'] is None else build_eq(c['b'], km)
+            except ValueError:
+                return None
+            try:
+                r = a + b if op == 'add' else a - b
+            except (TypeError, AttributeError):
+                return None
+            except Exception as ex:
+                return '%s with a number as operand raised %s' % (op, exc_name(ex))
+            return '%s with a number as operand returned %r' % (op, r)
+        if op == 'sum':
+            eqs = ([] if c['start'] is None else [c['start']]) + c['eqs']
+            try:
+                objs = [build_eq(e, km) for e in c['eqs']]
+                start = None if c['start'] is None else build_eq(c['start'], km)
+            except ValueError:
+                return None
+            try:
+                outcome = sum(objs) if start is None else sum(objs, start)
+            except TypeError as ex:
+                if start is None and objs:
+                    return None          # sum() starts from the int 0: refused (there is no __radd__)
+                outcome = ex
+            except (ValueError, ZeroDivisionError) as ex:
+                outcome = ex
+            if not eqs:
+                return None if outcome == 0 else 'sum([]) = %r' % (outcome,)
+            t = {'t': 'leaf', 'eq': eqs[0]}
+            for e in eqs[1:]:
+                t = {'t': 'add', 'a': t, 'b': {'t': 'leaf', 'eq': e}}
+            return self._judge(outcome, t, km, 'sum of %d equilibria' % len(eqs))
         if op in ('expr', 'rmul', 'add', 'sub', 'neg'):
             if op == 'expr':
                 t = c['tree']
@@ -1160,6 +1227,8 @@ class C11(Property):
         op = c['op']
         if op == 'expr':
             return 'expr:depth%d:%s' % (tree_depth(c['tree']), c['kmode'])
+        if op in ('add', 'sub') and (c['a'] is None or c['b'] is None):
+            return op + ':number-operand'
         if op == 'history':
             return 'history:%dsteps:%s' % (len(c['steps']), c['kmode'])
         if op == 'eliminate':
